@@ -2,7 +2,7 @@
   C11 — residue freedom of the stateful model: every rendering restores the bookkeeping state it
   was entered with, whatever that state was and whether it returns, raises or runs out of fuel.
 -/
-import AttrsModel.Spec.C11
+import AttrsModel.Spec.C11Base
 
 namespace Attrs.C11
 
@@ -129,8 +129,9 @@ theorem run_attrsRepr_none (id : Nat) (body : Prog Out) (s : St) (h : s.already 
 theorem run_attrsRepr_hit (id : Nat) (body : Prog Out) (s : St) (a : List Nat)
     (h : s.already = some a) (hc : a.contains id = true) :
     (attrsRepr id body).run s = (s, .ok "...") := by
+  have hL : s.alreadyL = a := by simp [St.alreadyL, h]
   unfold attrsRepr
-  simp only [run_step, h, hc, if_true, run_done]
+  simp only [run_step, h, hc, hL, if_true, run_done]
 
 theorem run_attrsRepr_miss (id : Nat) (body : Prog Out) (s : St) (a : List Nat)
     (h : s.already = some a) (hc : a.contains id = false) :
